@@ -41,7 +41,7 @@ DEFAULT_PROFILE = {
     "hyperlink": 0.05, "field": 0.04, "header": 0.25, "footer": 0.2, "fmt": 0.45, "empty_run": 0.04,
     "span": 0.12, "vmerge": 0.08, "overlap_comment": 0.06, "para_mark_rev": 0.0, "sect_break": 0.04, "comment_in_ins": 0.3, "multi_author": True, "literal_tab": 0.02,
     # off by default (switched on by the profiles of the checks that need them)
-    "shared_rev_id": 0.0, "odd_rev_id": 0.0, "shuffle_comments": 0.0, "comment_id_gap": 0.0,
+    "shared_rev_id": 0.0, "odd_rev_id": 0.0, "shuffle_comments": 0.0, "comment_id_gap": 0.0, "comment_on_del": 0.0,
 }
 
 
@@ -243,6 +243,17 @@ class Gen:
                 if self.p["shared_rev_id"] and r.random() < self.p["shared_rev_id"]:
                     a["id"] = d["id"]          # some producers give both halves of a replacement one id
                     self.features.add("shared_rev_id")
+                if allow_comment and self.p["comment_on_del"] and r.random() < self.p["comment_on_del"]:
+                    # a comment on the deleted half only: its range ends between the deletion and the insertion
+                    cid = self.new_comment()
+                    nodes.append({"k": "cs", "id": cid})
+                    nodes.append({"k": "del", **d, "runs": self.runs_for(text, deleted=True)})
+                    nodes.append({"k": "ce", "id": cid})
+                    nodes.append({"k": "ins", **a, "ch": [{"k": "r", "run": ru} for ru in self.runs_for(self.phrase())]})
+                    nodes.append({"k": "r", "run": self.cref_run(cid)})
+                    self.features.add("comment_on_del")
+                    self.features.add("subst")
+                    continue
                 nodes.append({"k": "del", **d, "runs": self.runs_for(text, deleted=True)})
                 nodes.append({"k": "ins", **a, "ch": [{"k": "r", "run": ru} for ru in self.runs_for(self.phrase())]})
                 self.features.add("subst")
